@@ -121,6 +121,11 @@ def finish(prop, tier, seed, reports, t0, explanation, assumptions, level="other
     known, _fixed = load_known()
     evdir = os.path.join(VERIF, "evidence")
     rpdir = os.path.join(VERIF, "replay")
+    if os.environ.get("VERIF_SCRATCH_OUT"):
+        import tempfile
+        base = tempfile.mkdtemp(prefix="verif-scratch-")
+        evdir = os.path.join(base, "evidence")
+        rpdir = os.path.join(base, "replay")
     os.makedirs(evdir, exist_ok=True)
     os.makedirs(rpdir, exist_ok=True)
     evaluations = sum(r.evaluations for r in reports)
